@@ -8,7 +8,10 @@
 
 package conv
 
+import "time"
+
 //@ use strconv
+//@ use jxtime
 
 //@ func verifIntRoundTrip(v int) (r int, err error)
 //@   ensures rt: err == nil && r == v
@@ -113,4 +116,36 @@ func verifFloat64RoundTrip(v float64) (float64, error) { return ToFloat64(Float6
 //@   ensures rt: err == nil && r == v
 func verifStringFloat64RoundTrip(v float64) (float64, error) {
 	return ToStringFloat64(StringFloat64ToString(v))
+}
+
+// ---------------------------------------------------------------------------
+// Unix timestamps in each unit (C13): the text written for an instant is the decimal count of that unit
+// (the accessor of THAT unit, no arithmetic in between), and it decodes, without error, to the instant
+// the constructor of THAT unit builds from exactly that count - i.e. the instant at the format's
+// resolution (time documentation: Unix(t.Unix(), 0) is t truncated to seconds, UnixMilli(t.UnixMilli())
+// to milliseconds, ...; assumed, the time functions are uninterpreted here).
+// ---------------------------------------------------------------------------
+
+//@ func verifUnixSecondsRoundTrip(t time.Time) (r time.Time, err error)
+//@   ensures rt: err == nil && r == time.Unix(t.Unix(), 0)
+func verifUnixSecondsRoundTrip(t time.Time) (time.Time, error) {
+	return ToUnixSeconds(UnixSecondsToString(t))
+}
+
+//@ func verifUnixMilliRoundTrip(t time.Time) (r time.Time, err error)
+//@   ensures rt: err == nil && r == time.UnixMilli(t.UnixMilli())
+func verifUnixMilliRoundTrip(t time.Time) (time.Time, error) {
+	return ToUnixMilli(UnixMilliToString(t))
+}
+
+//@ func verifUnixMicroRoundTrip(t time.Time) (r time.Time, err error)
+//@   ensures rt: err == nil && r == time.UnixMicro(t.UnixMicro())
+func verifUnixMicroRoundTrip(t time.Time) (time.Time, error) {
+	return ToUnixMicro(UnixMicroToString(t))
+}
+
+//@ func verifUnixNanoRoundTrip(t time.Time) (r time.Time, err error)
+//@   ensures rt: err == nil && r == time.Unix(0, t.UnixNano())
+func verifUnixNanoRoundTrip(t time.Time) (time.Time, error) {
+	return ToUnixNano(UnixNanoToString(t))
 }
